@@ -11,6 +11,7 @@ import MpirProofs.Lemmas.MpfStrDiv
 import MpirProofs.Lemmas.MpfStrGet
 import MpirProofs.Lemmas.MpfStrParse
 import MpirProofs.Lemmas.MpfStrScaled
+import MpirProofs.Lemmas.MpfStrAcc
 namespace Mpir.MpfStr
 open Mpir Mpir.Mpf
 
@@ -322,5 +323,39 @@ theorem scaledInt_bound (base nln : ℕ) (u : F) (hb : 1 ≤ base) (hn : 1 ≤ n
 -- 5·B^9 (EXP = 10) with 3 limbs: divided by 10^134
 example : scaledInt 10 4 ⟨2, 1, 0, [1]⟩ = (10 ^ 77 / 2 ^ 64, 77) := by decide +kernel
 example : (scaledInt 10 3 ⟨2, 1, 10, [5]⟩).2 = -134 := by decide +kernel
+
+/-- **Accuracy of mpf_get_str's algorithm.**  For a well-formed non-zero operand u, a base ≥ 2 and any n_digits,
+    if the adequacy conditions `adequate` hold — n_limbs_needed leaves two guard limbs beyond the digits worked to
+    (base^n·2^64 ≤ B^(nln−1)), at least three more digits are developed than delivered, the scaling exponent is
+    below 2^59, and in the division branch the power's ignored limbs do not exceed n_less_limbs_needed — then the
+    digits d₁…d_L and exponent x delivered by the conversion algorithm of mpf/get_str.c (top limbs of u, base^e by
+    mpn_pow_1_highpart cut to nln limbs at every squaring, product or quotient, digit development, rounding at
+    the n-th digit, carry, stripping) denote a value WITHIN ONE UNIT OF THE n-th DIGIT of |u|:
+        |0.d₁…d_L · base^x − |u|| ≤ base^(x − n).
+    The conditions only concern the binary64 computations of get_str.c:180/189/226; the driver evaluates them on
+    every mpf_get_str13 line of every run (a failure prints `!adequacy`).  With the single guard limb the code had
+    before its repair the first condition reads base^n ≤ B^(nln−1), for which no such theorem holds (A.2). -/
+theorem get_digits_accuracy (base nd0 : ℕ) (u : F) (hb : 2 ≤ base) (hu : OpWF u) (h0 : u.size ≠ 0)
+    (had : adequate base nd0 u = true) :
+    |digVal base (get_digits base nd0 u).1 (get_digits base nd0 u).2 - abs (toQ u)| ≤
+      (base : ℚ) ^ ((get_digits base nd0 u).2 - (effDigits base u.prec nd0 : ℤ)) := by
+  obtain ⟨hl, hlen, ht, _⟩ := hu
+  have hne : u.d ≠ [] := by
+    intro h; rw [h] at hlen; simp at hlen; omega
+  have habs : abs (toQ u) = qv u.d u.exp := by
+    rw [toQ_qv, abs_mul, abs_of_nonneg (qv_nonneg _ _)]
+    rcases sg_cases u with h | h <;> rw [h] <;> simp
+  unfold adequate at had
+  simp only [Bool.and_eq_true, Bool.or_eq_true, decide_eq_true_iff] at had
+  obtain ⟨⟨⟨H1, H2⟩, H3⟩, H4⟩ := had
+  rw [habs]
+  exact get_digits_within_unit base nd0 u hb hl hne ht H1 H2 H3 (fun h => H4.resolve_left h)
+
+-- non-vacuity: 2^-64 in base 10, all significant digits (21): adequacy holds, so 0.542101086242752217004 · 10^-19
+-- is within 10^(-19-21) of 2^-64; likewise 5·B^9 (division branch)
+example : adequate 10 0 ⟨2, 1, 0, [1]⟩ = true ∧ adequate 10 0 ⟨2, 1, 10, [5]⟩ = true ∧
+    adequate 3 40 ⟨2, 3, -128, [0x848073b81ed3faf5, 0x4af1d0f37852807, 0x9394374f077c93a1]⟩ = true := by decide +kernel
+example : get_digits 10 0 ⟨2, 1, 0, [1]⟩ = ([5, 4, 2, 1, 0, 1, 0, 8, 6, 2, 4, 2, 7, 5, 2, 2, 1, 7, 0, 0, 4], -19) := by
+  decide +kernel
 
 end Mpir.MpfStr
